@@ -4,7 +4,7 @@
 (*   scn.pers   "T" | "F"          persistent variant of the kind                         *)
 (*   scn.beh    what the target does: "coop" | "swallow" | "sleep" | "frozen" | "idle"    *)
 (*   scn.start  "run" | "dead" (finished before the first call) | "notrun" (run=False)    *)
-(*   scn.ops    the history: API calls wait0 waitT term0 termT term0F termTF alive close  *)
+(*   scn.ops    the history: API calls wait0 waitT waitL (long timeout) term0 termT term0F termTF alive close  *)
 (*              and the environment step "stop" (SIGSTOP, state T awaited)                *)
 (*   obs.calls  one record per API call that was started:                                 *)
 (*      op      name as above                                                             *)
@@ -24,7 +24,7 @@
 (* from executions of real workers (LifecycleJudge.tla).                                  *)
 EXTENDS Naturals, Sequences, FiniteSets
 
-WTOps    == {"wait0", "waitT", "term0", "termT", "term0F", "termTF"}
+WTOps    == {"wait0", "waitT", "waitL", "term0", "termT", "term0F", "termTF"}
 ForceOps == {"term0F", "termTF"}
 Calls(r) == {r.obs.calls[k] : k \in 1..Len(r.obs.calls)}
 
@@ -32,7 +32,10 @@ Calls(r) == {r.obs.calls[k] : k \in 1..Len(r.obs.calls)}
 \* wait/terminate come back within a small multiple of their timeout (and do not kill the caller)
 ReturnsC(r, c)  == c.op \in WTOps => (c.durc = "ok" /\ c.selfsig = "F" /\ c.ret \in {"T", "F"})     \* ... and answers, it does not raise
 \* a True answer means the worker is dead at that moment: the child according to the OS, and no thread of the worker left
-TruthfulC(r, c) == (c.op \in WTOps /\ c.ret = "T") => (c.os_ret = "dead" /\ c.thr_ret = "gone")
+TruthfulC(r, c) == /\ (c.op \in WTOps /\ c.ret = "T") => (c.os_ret = "dead" /\ c.thr_ret = "gone")
+                   \* ... and the forced, timed terminate (it ends with a join(timeout) on a child that has been signalled)
+                   \* does not answer False about a worker that is dead at that moment
+                   /\ (c.op = "termTF" /\ c.ret = "F") => ~(c.os_ret = "dead" /\ c.thr_ret = "gone")
 \* dead / never-run worker: True at once, in any order, any number of times
 DeadFastC(r, c) == (c.op \in WTOps /\ c.pre = "dead") => (c.ret = "T" /\ c.fast = "T")
 \* terminate(force=True) on a process/remote worker that does not block SIGTERM leaves the child dead
